@@ -257,6 +257,10 @@ func (s *Server) Remove(i device.ID, shutdown bool) {
 		if !s.IsActive() {
 			return
 		}
+		// shutdown may close the channel between the check above and the send (or
+		// while the send waits for room), this is then the same as finding the
+		// Server inactive.
+		defer func() { recover() }()
 		s.delSession <- i.Hash()
 		return
 	}
